@@ -34,14 +34,29 @@ Proof.
     + apply value_spec_block; [exact Hv | exact Htr].
 Qed.
 
+Lemma wf_item_ic_ok it : wf_item it = true -> item_ic_ok it.
+Proof.
+  destruct it as [n t tr|k ksp v tr]; [intros; exact I|].
+  cbn [wf_item item_ic_ok]. intros Hwf. apply andb_true_iff in Hwf as [Hwf Htr].
+  apply andb_true_iff in Hwf as [Hk Hv].
+  destruct v as [tsp cm|vsp f tsp cm|vsp folded h lead indent first more].
+  - intros m Heat. discriminate Heat.
+  - destruct f as [l0 more|l0 more|l0 more].
+    + apply value_spec_ic_plain. exact Hv.
+    + intros m Heat. discriminate Heat.
+    + intros m Heat. discriminate Heat.
+  - apply value_spec_ic_block; [exact Hv | exact Htr].
+Qed.
+
 Theorem yaml_agree b : wf_block b = true ->
   options_to_items (print_block b) = Ok (meaning_block b).
 Proof.
   intros Hwf. pose proof Hwf as Hwf0. unfold wf_block in Hwf0.
   apply andb_true_iff in Hwf0 as [Hwf0 _]. apply andb_true_iff in Hwf0 as [Hwf0 _].
   rewrite forallb_forall in Hwf0.
-  apply block_agree; [exact Hwf | |].
+  apply block_agree; [exact Hwf | | |].
   - apply Forall_forall. intros it Hin. apply wf_item_ok. auto.
+  - apply Forall_forall. intros it Hin. apply wf_item_ic_ok. auto.
   - intros k ksp vsp f tsp cm tr Hin. specialize (Hwf0 _ Hin). cbn [wf_item wf_value] in Hwf0.
     apply bare_flow. apply andb_true_iff in Hwf0 as [Hwf0 _]. apply andb_true_iff in Hwf0 as [_ Hv].
     apply andb_true_iff in Hv as [Hv _]. apply andb_true_iff in Hv as [_ Hv]. exact Hv.
